@@ -44,7 +44,8 @@ def program(row, n="{N}"):
         inner = [f"mut m: {T[d]} = {INIT[d][0]}", f"m {row.get('cop', '+')}= {e}", f"want_{d}{n}(m)"]
     elif pos.startswith("constfwd-"):
         # EARLY refers to X before X is declared: X is evaluated on demand; its annotation must still be checked
-        decls += f"\nconst EARLY{n}: {T[d]} = X{n}\nconst X{n}: {T[d]} = {e}\n"
+        # (EARLY carries no annotation: an ill-typed X must be rejected for X's own annotation, not for EARLY's)
+        decls += f"\nconst EARLY{n} = X{n}\nconst X{n}: {T[d]} = {e}\n"
         inner = [f"want_{d}{n}(X{n})", f"want_{d}{n}(EARLY{n})"]
     else:  # const
         decls += f"\nconst X{n}: {T[d]} = {e}\n"
